@@ -1,4 +1,8 @@
 import features
+import behaviours
+
+STREAM_A = behaviours.stream_hook("MC_Stream", {"quick": "MC_Stream_q", "thorough": "MC_Stream_t"})
+NEG_STREAM = [("MC_Stream", "NEG_Stream_" + v) for v in ("insert_before_read", "key_by_start", "no_seek", "read_not_exact", "no_length_guard", "eager_read")]
 """Per-property recipes: which bounded instances are model-checked and replayed (direction A),
 which generator families are recorded and trace-validated (direction B), and which rejection
 reasons count for the property."""
@@ -76,10 +80,13 @@ RECIPES = {
     },
     "C14": {
         "level": "model_checking",
-        "mc": {"quick": [], "thorough": []},
+        "mc": {"quick": [("MC_Notes", "MC_Notes_q", 12)], "thorough": [("MC_Notes", "MC_Notes_t", 14)]},
         "families": {"quick": [("notes", 1500, 4)], "thorough": [("notes", 12000, 12)]},
         "reasons": ("value", "panic"),
-        "rule": "B: 0..5 notes, namesz/descsz 0..20, alignment {1,2,4,8,16,3,5,6,7,12,32,0,2^31,2^32-1,2^63,2^64-1}, both "
+        "rule": "A: <= 2 notes encoded from the ABI text, namesz/descsz over every residue 0..align+1, alignments {0,1,3,4} "
+                "(thorough {0,1,2,3,4,5,8,16}), plain / NUL-terminated / GNU ABI-tag / build-id, both orders, cut tails and "
+                "trailing junk: TLC checks iteration = the encoder's ground truth, every case replayed; "
+                "B: 0..5 notes, namesz/descsz 0..20, alignment {1,2,4,8,16,3,5,6,7,12,32,0,2^31,2^32-1,2^63,2^64-1}, both "
                 "classes and orders, typed GNU notes, trailing garbage / truncation / one corrupted byte; TLC compares the "
                 "iteration with the operational model and the operational model with the declarative record layout",
         "assumptions": COMMON_ASSUME,
@@ -96,7 +103,7 @@ RECIPES = {
     },
     "C12": {
         "level": "model_checking",
-        "mc": {"quick": [], "thorough": []},
+        "mc": {"quick": [("MC_Links", "MC_Links_q")], "thorough": [("MC_Links", "MC_Links_t", 12)]},
         "families": {"quick": [("sysvhash", 120, 4)], "thorough": [("sysvhash", 1000, 12)]},
         "reasons": ("value", "panic"),
         "rule": "B: harness-built .hash tables and corrupted variants, as C11; hash function vs the gABI elf_hash text",
@@ -114,10 +121,13 @@ RECIPES = {
     },
     "C16": {
         "level": "model_checking",
-        "mc": {"quick": [], "thorough": []},
-        "families": {"quick": [("links", 1500, 3), ("notes", 500, 1)], "thorough": [("links", 12000, 10), ("notes", 4000, 2)]},
+        "mc": {"quick": [("MC_Links", "MC_Links_q")], "thorough": [("MC_Links", "MC_Links_t", 12)]},
+        "families": {"quick": [("links", 1500, 3), ("notes", 500, 1), ("sysvhash", 80, 2), ("gnuhash", 50, 1)],
+                     "thorough": [("links", 12000, 10), ("notes", 4000, 2), ("sysvhash", 600, 4), ("gnuhash", 400, 4)]},
         "reasons": ("value", "panic", "died"),
-        "rule": "B: adversarial version-record chains (next in {0,1,size-1,size,2^31,2^32-1,to-end}, counts up to u64::MAX, aux "
+        "rule": "A: every SysV table over 3 (thorough 4) symbols with buckets and chains as arbitrary functions into 0..n (all cycle "
+                "lengths, self-loops, out-of-range links) x present/absent names, replayed; "
+                "B: hash tables with field-aware corrupted buckets/chains; adversarial version-record chains (next in {0,1,size-1,size,2^31,2^32-1,to-end}, counts up to u64::MAX, aux "
                 "offsets up to 2^32-1, starts up to usize::MAX); items <= bytes and <= count are part of the trace spec; a call "
                 "exceeding 5 s CPU is recorded as died",
         "assumptions": COMMON_ASSUME,
@@ -149,6 +159,8 @@ RECIPES = {
         "assumptions": COMMON_ASSUME,
     },
     "C07": {
+        "custom": [STREAM_A],
+        "neg": {"quick": [NEG_STREAM[1], NEG_STREAM[2], NEG_STREAM[3]]},
         "level": "model_checking",
         "families": {"quick": [("stream", 8, 5)], "thorough": [("stream", 60, 14)]},
         "reasons": ("value", "panic"),
@@ -160,6 +172,8 @@ RECIPES = {
         "assumptions": COMMON_ASSUME,
     },
     "C08": {
+        "custom": [STREAM_A],
+        "neg": {"quick": [NEG_STREAM[4], NEG_STREAM[5]]},
         "level": "model_checking",
         "families": {"quick": [("sbig", 14, 4), ("stream", 5, 2)], "thorough": [("sbig", 120, 10), ("stream", 40, 4)]},
         "reasons": ("bound", "lazy", "panic", "died"),
@@ -170,6 +184,8 @@ RECIPES = {
         "assumptions": COMMON_ASSUME + ["the harness's own bookkeeping allocations are excluded by pausing the counter inside reader callbacks and projections"],
     },
     "C17": {
+        "custom": [STREAM_A],
+        "neg": {"quick": [NEG_STREAM[0]]},
         "level": "fault_enumeration",
         "families": {"quick": [("sfault", 3, 4)], "thorough": [("sfaultall", 3, 10), ("sfault", 20, 4)]},
         "reasons": ("value", "panic"),
